@@ -171,10 +171,20 @@ def run(case, ctx):
             rx = path[-1]
             return {k: np.array(getattr(rx, k), dtype=float) for k in ('snr_01nm', 'osnr_ase_01nm', 'osnr_nli',
                                                                        'chromatic_dispersion', 'pmd', 'pdl')}
+        def weights(net):
+            return sorted((u.uid, v.uid, round(float(w.get('weight', 0.0)), 6)) for u, v, w in net.edges(data=True))
+        w1 = weights(network)
         rx1 = receiver(equipment, network, req)
         jk = j1
         for k in range(case['rounds']):
             equipment_k, network_k, req_k = design(jk, exported=True)
+            wk = weights(network_k)
+            # the export rounds fibre lengths to the millimetre: weights (metres) are compared within 1 cm
+            same = len(wk) == len(w1) and all(a[:2] == b[:2] and abs(a[2] - b[2]) <= 0.01 for a, b in zip(w1, wk))
+            if not same:
+                d = [x for x in w1 if x not in wk][:2], [x for x in wk if x not in w1][:2]
+                ctx.violation('routing-weights-of-the-reloaded-design-differ', f'round {k + 2}: designed {d[0]} reloaded {d[1]}')
+                return
             if sim_state() != before:
                 ctx.violation('simparams-changed-by-design', f'round {k + 2}')
                 return
